@@ -1,4 +1,5 @@
 import ExprModel.Types.HasType
+import ExprModel.Types.SrcDefects
 /- driver handlers for the type / name-resolution model (C16) -/
 namespace ExprModel.Drv
 open ExprModel
@@ -8,10 +9,10 @@ def bad : Sexp := .list [.atom "bad-request"]
 /-- `asis` (the code's current flags; `repaired` is an alias) | `aswas` (the pinned snapshot before the
 fixes), optionally suffixed `-rev` (iterate Go maps in reverse order) -/
 def defectsOfAtom : String → Option (NDefects × (Table → Table))
-  | "asis" => some (.asIs, id)
+  | "asis" => some (srcNDefects, id)        -- the flags derived from the source (= NDefects.asIs: Props/C16 src_flags_agree)
   | "repaired" => some (.repaired, id)
   | "aswas" => some (.asWas, id)
-  | "asis-rev" => some (.asIs, List.reverse)
+  | "asis-rev" => some (srcNDefects, List.reverse)
   | "repaired-rev" => some (.repaired, List.reverse)
   | "aswas-rev" => some (.asWas, List.reverse)
   | _ => none
@@ -173,9 +174,14 @@ def handleRef : List Sexp → Sexp
     | _, _, _ => bad
   | _ => bad
 
+/-- `(c16-srcflags)` → the five switches derived from vm/runtime.go and checker/checker.go -/
+def handleSrcFlags : List Sexp → Sexp
+  | _ => .list [.atom "ndefects", Sexp.bool srcNDefects.ptrFuncNotFetched, Sexp.bool srcNDefects.ptrIfaceFuncNotFetched,
+      Sexp.bool srcNDefects.fetchFnNoUnwrap, Sexp.bool srcNDefects.fetchDerefOnce, Sexp.bool srcNDefects.methodAsValue]
+
 def typesHandlers : List (String × (List Sexp → Sexp)) :=
   [("c16-table", handleTypes), ("c16-fields", handleTypes), ("c16-mset", handleTypes),
    ("c16-names", handleTypes), ("c16-member", handleTypes), ("c03-check", handleCheck),
-   ("c03-ref", handleRef)]
+   ("c03-ref", handleRef), ("c16-srcflags", handleSrcFlags)]
 
 end ExprModel.Drv
